@@ -54,7 +54,8 @@ pub fn tsan_slice(ctx: &Ctx, rep: &mut Report) {
     let scratch = ctx.scratch("tsan");
     let mut rng = Rng::derive(ctx.seed, "tsan", 0);
     let mut runs = 0u64;
-    let mut blocks: BTreeMap<String, u64> = BTreeMap::new();
+    let mut blocks: BTreeMap<(bool, String), u64> = BTreeMap::new();
+    let repo_s = ctx.repo.canonicalize().unwrap_or(ctx.repo.clone()).to_string_lossy().trim_end_matches('/').to_string();
     let n_trees = 8;
     for t in 0..n_trees {
         let root = scratch.join(format!("t{t}"));
@@ -122,18 +123,28 @@ pub fn tsan_slice(ctx: &Ctx, rep: &mut Report) {
                 rep.inconclusive("tsan-run-timeout", json!({"tree": t}));
             }
             for block in text.split("WARNING: ThreadSanitizer").skip(1) {
-                let kind = block.lines().next().unwrap_or("").trim().trim_start_matches(':').trim().to_string();
-                let frame = block
-                    .lines()
-                    .find(|l| l.contains("typeshare") && (l.contains("cli/src") || l.contains("core/src")))
-                    .or_else(|| block.lines().find(|l| l.trim_start().starts_with("#0")))
-                    .unwrap_or("")
-                    .split_whitespace()
-                    .skip(1)
-                    .take(2)
-                    .collect::<Vec<_>>()
-                    .join(" ");
-                *blocks.entry(format!("{kind}|{frame}")).or_insert(0) += 1;
+                // "data race (pid=123)" -> "data race"
+                let kind = block.lines().next().unwrap_or("").trim().trim_start_matches(':').trim().split(" (pid").next().unwrap_or("").to_string();
+                // a typeshare frame is a source path under the tree being checked (not libcore's `library/core/src/..`)
+                let own = |l: &str| l.contains(&format!("{}/cli/src/", repo_s)) || l.contains(&format!("{}/core/src/", repo_s)) || l.contains(&format!("{}/lib/src/", repo_s));
+                let frame_of = |l: &str| -> String {
+                    // "#0 symbol path:line:col (module+0x..)" -> "symbol file" without line numbers
+                    let mut it = l.split_whitespace().skip(1);
+                    let sym = it.next().unwrap_or("").to_string();
+                    let path = it.next().unwrap_or("");
+                    let file = path.split(':').next().unwrap_or("").trim_start_matches(&repo_s).trim_start_matches('/').to_string();
+                    format!("{sym} {file}")
+                };
+                match block.lines().find(|l| own(l)) {
+                    Some(l) => *blocks.entry((true, format!("{kind}|{}", frame_of(l)))).or_insert(0) += 1,
+                    None => {
+                        let top = block.lines().find(|l| l.trim_start().starts_with("#0")).map(frame_of).unwrap_or_default();
+                        // keep the crate, drop the registry hash and versions
+                        let krate = ["crossbeam_epoch", "crossbeam_deque", "crossbeam_channel", "ignore", "std", "core", "alloc"].iter().find(|c| block.contains(&format!("{c}::"))).copied().unwrap_or("other");
+                        let _ = top;
+                        *blocks.entry((false, format!("{kind}|first-crate-in-stacks={krate}"))).or_insert(0) += 1
+                    }
+                }
             }
         }
         let _ = std::fs::remove_dir_all(&root);
@@ -142,12 +153,14 @@ pub fn tsan_slice(ctx: &Ctx, rep: &mut Report) {
     rep.count("tsan_report_blocks", blocks.values().sum());
     rep.cell("tsan-slice");
     rep.eval(runs);
-    for (k, n) in blocks {
-        let in_typeshare = k.contains("cli/src") || k.contains("core/src");
+    for ((in_typeshare, k), n) in blocks {
         if in_typeshare {
-            rep.violate(format!("C06|tsan|{}", k.chars().take(120).collect::<String>()), format!("ThreadSanitizer report x{n}: {k}"), json!({"report": k, "count": n}));
+            rep.violate(format!("C06|tsan|{}", k.chars().take(120).collect::<String>()), format!("ThreadSanitizer report x{n} with a typeshare frame: {k}"), json!({"report": k, "count": n}));
         } else {
-            rep.inconclusive("tsan-report-outside-typeshare-frames", json!({"report": k, "count": n}));
+            // no typeshare source line in either stack: a report about a dependency's own synchronisation (crossbeam-epoch
+            // synchronises with fences, which ThreadSanitizer does not model) - not a verdict about typeshare
+            rep.count("tsan_report_blocks_without_typeshare_frame", n);
+            rep.inconclusive("tsan-report-without-typeshare-frame", json!({"report": k, "count": n}));
         }
     }
     let _ = std::fs::remove_dir_all(&scratch);
@@ -202,7 +215,9 @@ pub fn miri_cli_slice(ctx: &Ctx, rep: &mut Report) {
         rep.eval(1);
         rep.count("miri_cli_runs", 1);
         if stderr.contains("Undefined Behavior") || stderr.contains("data race") {
-            let frame = stderr.lines().find(|l| l.contains("cli/src") || l.contains("core/src")).unwrap_or("").trim().to_string();
+            let repo_s = ctx.repo.canonicalize().unwrap_or(ctx.repo.clone()).to_string_lossy().trim_end_matches('/').to_string();
+            let frame = stderr.lines().find(|l| l.contains(&format!("{repo_s}/cli/src/")) || l.contains(&format!("{repo_s}/core/src/"))).unwrap_or("").trim().to_string();
+            let frame = strip_positions(&frame);
             if frame.is_empty() {
                 rep.inconclusive("miri-report-in-third-party-code", json!({"seed": sd, "stderr_tail": stderr.chars().rev().take(600).collect::<String>().chars().rev().collect::<String>()}));
             } else {
@@ -273,7 +288,9 @@ pub fn miri_lib_slice(ctx: &Ctx, rep: &mut Report) {
         rep.eval(done);
         rep.count("miri_library_operations", done);
         if stderr.contains("Undefined Behavior") {
-            let frame = stderr.lines().find(|l| l.contains("core/src")).unwrap_or("").trim().to_string();
+            let repo_s = ctx.repo.canonicalize().unwrap_or(ctx.repo.clone()).to_string_lossy().trim_end_matches('/').to_string();
+            let frame = stderr.lines().find(|l| l.contains(&format!("{repo_s}/core/src/"))).unwrap_or("").trim().to_string();
+            let frame = strip_positions(&frame);
             if frame.is_empty() {
                 rep.inconclusive("miri-report-in-third-party-code", json!({"shard": k, "stderr_tail": stderr.chars().rev().take(600).collect::<String>().chars().rev().collect::<String>()}));
             } else {
@@ -284,4 +301,20 @@ pub fn miri_lib_slice(ctx: &Ctx, rep: &mut Report) {
         }
     }
     rep.cell("miri-library-slice");
+}
+
+/// `.. at /repo/core/src/parser.rs:12:5: 12:9` -> without line / column numbers (signatures never contain them)
+fn strip_positions(frame: &str) -> String {
+    let mut out = String::new();
+    let mut chars = frame.chars().peekable();
+    while let Some(c) = chars.next() {
+        if c == ':' && chars.peek().map(|d| d.is_ascii_digit()).unwrap_or(false) {
+            while chars.peek().map(|d| d.is_ascii_digit()).unwrap_or(false) {
+                chars.next();
+            }
+            continue;
+        }
+        out.push(c);
+    }
+    out
 }
